@@ -5,6 +5,7 @@
 package main
 
 import (
+	"runtime"
 	"bufio"
 	"bytes"
 	"encoding/json"
@@ -147,6 +148,30 @@ func runC20(t *testing.T, cases []map[string]interface{}, ev *vEvents) {
 		time.Sleep(3 * time.Millisecond)
 	}
 	time.Sleep(700 * time.Millisecond)
+	// flood: far more event bytes than any socket buffer holds while the stalled subscriber reads nothing; every
+	// publication must return (an issuing request calls it before it answers)
+	floodDone := make(chan time.Duration, 1)
+	go func() {
+		t0 := time.Now()
+		blob := bytes.Repeat([]byte{0x30}, 1500)
+		for k := 0; k < 24000; k++ {
+			if k%3 == 0 {
+				eventNotifier.PublishSSH(blob)
+			} else if k%3 == 1 {
+				eventNotifier.PublishX509(blob)
+			} else {
+				eventNotifier.PublishWebLoginEvent("flood-user")
+			}
+		}
+		floodDone <- time.Since(t0)
+	}()
+	floodMs := -1
+	select {
+	case d := <-floodDone:
+		floodMs = int(d / time.Millisecond)
+	case <-time.After(20 * time.Second):
+	}
+	runtime.KeepAlive(stalled) // an unreachable connection would be closed by its finalizer and stop being a stalled subscriber
 	fast.mu.Lock()
 	var fastIDs []int
 	gotLogins := 0
@@ -155,6 +180,9 @@ func runC20(t *testing.T, cases []map[string]interface{}, ev *vEvents) {
 		switch e.Type {
 		case eventmon.EventTypeSSHCert, eventmon.EventTypeX509Cert:
 			id := 0
+			if len(e.CertData) == 1500 && e.CertData[0] == 0x30 && e.CertData[1] == 0x30 {
+				continue // flood filler
+			}
 			for k, is := range issued {
 				if bytes.Equal(is.bytes, e.CertData) {
 					id = k + 1
@@ -165,7 +193,9 @@ func runC20(t *testing.T, cases []map[string]interface{}, ev *vEvents) {
 			}
 			fastIDs = append(fastIDs, id)
 		default:
-			gotLogins++
+			if e.Username != "flood-user" {
+				gotLogins++
+			}
 		}
 	}
 	fast.mu.Unlock()
@@ -178,5 +208,5 @@ func runC20(t *testing.T, cases []map[string]interface{}, ev *vEvents) {
 		missing = 0
 	}
 	ev.Emit(map[string]interface{}{"i": 0, "ev": "Stream", "responded": resp, "fast": fastIDs, "maxIssueMsWithStalledSubscriber": int(maxIssue / time.Millisecond),
-		"loginsMissing": missing, "loginEvents": gotLogins, "lateEvents": late, "paths": paths, "rounds": rounds})
+		"floodMs": floodMs, "loginsMissing": missing, "loginEvents": gotLogins, "lateEvents": late, "paths": paths, "rounds": rounds})
 }
